@@ -1,5 +1,6 @@
 SPECIFICATION Spec
 CONSTANTS
+  Quick = TRUE
   MaxSeg = 1
   MaxDepth = 2
   Mut = "icase"
